@@ -397,12 +397,12 @@ func checkHandlerWrite(tt *testing.T, c Case, info *pbt.Info) error {
 // checkClientWrite: the transport stops reading the request body after k bytes.
 func checkClientWrite(tt *testing.T, c Case, info *pbt.Info) error {
 	b := c.Body
-	if b.Kind != prog.Client && b.Kind != prog.Bidi {
-		b.Kind = prog.Client
+	if (b.Kind == prog.Unary || b.Kind == prog.Server) && len(b.Msgs) != 1 {
+		b.Kind = prog.Client // typed single-request calls carry exactly one message
 	}
 	full := b.Request().Body
 	n := len(full)
-	_, bounds := bodies.FrameBounds(full, true)
+	_, bounds := bodies.FrameBounds(full, !(b.Protocol == "connect" && b.Kind == prog.Unary))
 	for _, k := range offsets(c, n, bounds) {
 		if k > n {
 			continue
@@ -410,7 +410,10 @@ func checkClientWrite(tt *testing.T, c Case, info *pbt.Info) error {
 		sc := memnet.NewScript(200, http.Header{"Content-Type": {b.ContentType()}}, nil, nil)
 		sc.FailRequestAfter = k
 		// how the transport reports the failure varies
-		switch (k + len(b.Msgs)) % 6 {
+		switch (k + len(b.Msgs)) % 7 {
+		case 6:
+			// net/http's "Post …: EOF" when the server drops the connection
+			sc.DoErr = &url.Error{Op: "Post", URL: "http://mem.test/x", Err: io.EOF}
 		case 0:
 			sc.DoErr = opaqueErr{}
 		case 1:
